@@ -37,3 +37,30 @@ Proof.
     destruct (event s (root ra) (root rb)); try congruence; simpl; eauto.
 Qed.
 Print Assumptions C04_finite_cost.
+
+(** the four labelled solvers (no hypothesis on the unit costs either) *)
+From SR Require Import Model.Subseq Model.Spfs Model.Uspfs Proofs.SubseqProofs Proofs.LabelCostProofs
+  Proofs.SpfsProofs Proofs.SpfsFinal Proofs.UspfsProofs Proofs.UspfsFinal.
+
+(* base/extended SPFS: every returned labelled tree has the shape of O, leaves on their species with
+   exactly their input syntenies, species of S only, no invalid event, every child synteny a subsequence
+   of its parent's, the root synteny is one of the root orders (every family once); the evaluator does
+   not fail on it and its cost is the value of the result *)
+Theorem C04_valid_ordered : forall S c rp extended orders O e lt, nn (c_hgt c) -> orders_ok S O orders ->
+  spfs S c rp extended orders O = Some e -> In lt (tags e) ->
+  exists ord, In ord orders /\ valid_ordered S ord O lt /\ mapping_ok extended O lt /\
+              total_cost c O true lt = Some (val e).
+Proof. exact spfs_valid. Qed.
+Print Assumptions C04_valid_ordered.
+
+(* base/extended USPFS: shape, leaves, species, events; a family occurs only inside the subtree of its gain
+   node (the LCA of the leaves carrying it) and at every node of the branch from that node down to it *)
+Theorem C04_valid_unordered : forall S c rp extended O, nn (c_hgt c) -> leaves_ok S O ->
+  exists E, uspfs S c rp extended O = Some E /\
+    forall t, In t (tags E) ->
+      uvalid S O t /\ ushape O t /\ all_sorted t /\ valid_rec S O (forget t) /\ events_valid t /\
+      total_cost c O false t = Some (ucost c O t) /\
+      (forall p tp f, lsub t p = Some tp -> In f (lsyn tp) ->
+         exists g, anc g p = true /\ is_lca_of_carriers O f g /\ holds_on t f g p).
+Proof. exact uspfs_valid_full. Qed.
+Print Assumptions C04_valid_unordered.
